@@ -41,11 +41,11 @@ _TMP = []
 
 
 def _tmpdir():
-    import atexit, os, shutil, tempfile
-    if not _TMP:
-        _TMP.append(tempfile.mkdtemp(prefix='c18_', dir='/var/tmp'))
-        atexit.register(shutil.rmtree, _TMP[0], True)
-    return _TMP[0]
+    import os, tempfile
+    if not _TMP or _TMP[0][0] != os.getpid():
+        base = os.environ.get('VERIF_RUN_TMP') or tempfile.gettempdir()
+        _TMP[:] = [(os.getpid(), tempfile.mkdtemp(prefix='c18_', dir=base))]
+    return _TMP[0][1]
 
 
 def _gen_file_main(rnd):
